@@ -48,7 +48,7 @@ CLAIMS = {
   "technique": "Lean 4 proof of effect-log completeness by induction on tree depth + effect-log correspondence + storage health oracle",
  },
  "C10": {
-  "text": "Proved in Lean for the value-level World model (one current handle per container): a child is inline exactly when it is a single slab that fits the slot's budget after wrappers, the parent element carries the size of the child's current form, the parent slot is refreshed by the notification, value IDs are stable under all five operations and both transitions, a handed-back child is standalone, index shifts are order independent; a handle obtained by lookup or mutable iteration gets exactly the closure the notification theorems assume (C10Get.*), reopening drops all closures. The model also covers PopIterate / SetType through nested handles (the two PopIterate defects this found are repaired: fixed: lines in known_findings.txt). Tie: ~20000 nested operations per run replayed on the model with nested structural dumps. The histories excluded by the hypothesis (two live handles to one container) violate the property on the real code: known findings F2/F2b, printed as KNOWN-FINDING.",
+  "text": "Proved in Lean for the value-level World model (one current handle per container): a child is inline exactly when it is a single slab that fits the slot's budget after wrappers, the parent element carries the size of the child's current form, the parent slot is refreshed by the notification, value IDs are stable under all five operations and both transitions, a handed-back child is standalone, index shifts are order independent; a handle obtained by lookup or mutable iteration gets exactly the closure the notification theorems assume (C10Get.*), reopening drops all closures. A single global invariant WorldOk (every container well-formed in its standalone or inlined form, parent element size = child's current form, inline exactly when it fits the slot, unique reference, index and closure bookkeeping consistent, acyclic) is proved preserved by Insert / Set / Remove on an array at any depth with array and map ancestors (C10W.worldOk_arr*, via notify_restores), together with the list-level result of the mutated container; the array core is re-proved for reference elements and inlined roots (C10W.*_refines_ref / _inlined). The model also covers PopIterate / SetType through nested handles (the two PopIterate defects this found are repaired: fixed: lines in known_findings.txt). Tie: ~20000 nested operations per run replayed on the model with nested structural dumps. The histories excluded by the hypothesis (two live handles to one container) violate the property on the real code: known findings F2/F2b, printed as KNOWN-FINDING.",
   "design_ref": "DESIGN.md 7/C10, 8, 13",
   "note": "Partial: persistence of child mutations composes with C03 by correspondence (commit+reload oracle), not by a Lean theorem; facts about Arr.set on reference elements are hypotheses (validated by correspondence).",
   "technique": "Lean 4 proof over a model of the parent-callback protocol + nested-history correspondence; known-finding signatures for dual handles",
@@ -78,7 +78,7 @@ CLAIMS = {
   "technique": "Lean 4 proof (decide over regenerated error table; no-op lemma on the request step) + fault-injection differential runs",
  },
  "C03": {
-  "text": "Lean theorems (storage level) prove that no operation other than a commit changes the ledger, that a successful commit followed by ANY commit-free history and a crash leaves a reopened storage showing exactly the commit-time view of every owned identifier, and that temporary-address slabs are never written, for every history. The container level is tied by correspondence: array model + storage state machine reproduce every decoded register after every commit and the reopened tree after every crash. Partial: the container-level theorem effects_complete and the codec round trip are validated by correspondence / C07, not yet proved here.",
+  "text": "Lean theorems (storage level) prove that no operation other than a commit changes the ledger, that a successful commit followed by ANY commit-free history and a crash leaves a reopened storage showing exactly the commit-time view of every owned identifier, and that temporary-address slabs are never written, for every history. The container level is tied by correspondence: array model + storage state machine reproduce every decoded register after every commit and the reopened tree after every crash. Container level (E2E theorems): for EVERY history of array (and map) operations run against the storage state machine, the storage view is exactly the container's slabs plus its live large-value slabs (rep_history, from C09's effects_complete), the tree is determined by its slabs (load_slabs), and history -> successful commit of either kind -> reopen on a fresh storage -> loading through Retrieve returns the SAME container (commit_reopen_identity); without the commit the reopen returns the container as of the last commit (crash_reopen_last_commit); failed commits followed by a successful retry behave the same (failed_commit_then_retry). For arrays the codec hypothesis is discharged for the real byte format (keyed_codec_roundtrip, bytes_commit_reopen_identity, ledger_read_by_decodeSlab: DecodeSlab of every owner register = the slab of the array). Partial: for maps the byte-codec instance and the liveness of large-value slabs are not proved (map_rep_history_partial); nested containers rely on the World correspondence.",
   "design_ref": "DESIGN.md 7/C03",
   "note": "Trusted: as C15; plus the generated fact baseStoreCallers/baseRemoveCallers (only commit functions write the ledger).",
   "technique": "Lean 4 proof over the storage state machine + regenerated source fact + model/implementation correspondence of committed registers",
@@ -90,7 +90,7 @@ CLAIMS = {
   "technique": "Lean 4 proof (sortedness, schedule invariance of a message-passing pool model) + regenerated syntactic facts + multi-configuration byte comparison",
  },
  "C08": {
-  "text": "Proved in Lean for the value-level storage model: any two schedules of {commit (either kind), drop cache, commit+reopen} interleaved with the same client history yield the same observations, the same view and, after a final commit, the same ledger. Tie: storage correspondence; oracle: the same container histories under six schedules on the real code give equal observations, content, validity and registers. Partial: Go handles keep pointers; the theorem is about clients that re-fetch handles after a cache drop.",
+  "text": "Proved in Lean for the value-level storage model: any two schedules of {commit (either kind), drop cache, commit+reopen} interleaved with the same client history yield the same observations, the same view and, after a final commit, the same ledger. Tie: storage correspondence; oracle: the same container histories under six schedules on the real code give equal observations, content, validity and registers. Container level: loading a container through Retrieve with arbitrary cache drops, preloads and other reads interleaved yields the same container (E2E.load_from_storage, scheduled_retrieve_is_fetch, and the map versions). The oracle also drops the cache while slabs are dirty. Partial: Go handles keep pointers; the theorems are about clients that re-fetch handles after a cache drop.",
   "design_ref": "DESIGN.md 7/C08",
   "note": "Trusted: as C15. Pointer aliasing between stale handles and the cache is not modelled (finding F2 territory).",
   "technique": "Lean 4 simulation proof between maintenance schedules + schedule-differential oracle on the implementation",
@@ -116,11 +116,11 @@ CLAIMS = {
  "C15": {
   "text": "Lean theorems (inv_reachable, step_refines, retrieve_eq_view, commit_makes_base_eq_view, dropAll_reverts, observers_consistent, temp_never_in_ledger) prove that the storage state machine refines the write-back-overlay specification for EVERY finite operation sequence over any identifier universe, incl. faulty commits and re-creation. The model is tied to PersistentSlabStorage by replaying every generated history on both and comparing each observation, each ledger call log and, after every step, where every identifier is served from.",
   "design_ref": "DESIGN.md 7/C15, Appendix C",
-  "note": "Trusted: Lean kernel; statement of the theorems; the correspondence harness (differential testing, bounded by its generators); value-level model (no pointer aliasing); BaseStorage is a map whose failing calls have no effect; codec round-trip is a hypothesis (RoundTrip).",
+  "note": "Trusted: Lean kernel; statement of the theorems; the correspondence harness (differential testing, bounded by its generators); value-level model (no pointer aliasing); BaseStorage is a map whose failing calls have no effect; the codec round-trip hypothesis (RoundTrip) is discharged for the real byte format on array slabs (E2E.keyed_codec_roundtrip, bytes_history_no_encode_failure); for other slab kinds it is C07's round-trip theorems.",
   "technique": "Lean 4 refinement proof (state machine -> overlay spec) + model/implementation trace correspondence",
  },
  "C14": {
-  "text": "Lean theorems prove for both commit functions, every fault plan, every key/arrival order: a failing ledger call is reported, the view never changes, an identifier leaves the write set only when the ledger holds its latest value, and any sequence of failed attempts followed by a successful one leaves the ledger equal to a single fault-free commit (retry_converges). Tie and oracle as C15 with injected ledger faults.",
+  "text": "Lean theorems prove for both commit functions, every fault plan, every key/arrival order: a failing ledger call is reported, the view never changes, an identifier leaves the write set only when the ledger holds its latest value, and any sequence of failed attempts followed by a successful one leaves the ledger equal to a single fault-free commit (retry_converges); at container level, after any sequence of failing commits the in-memory view still represents the container and a successful retry followed by a reopen returns it (E2E.failed_commit_then_retry, map version). Tie and oracle as C15 with injected ledger faults.",
   "design_ref": "DESIGN.md 7/C14, Appendix C",
   "note": "Trusted: as C15. Worker pools are abstracted to arrival order (workers only read and encode: generated fact workerClosuresWriteFree).",
   "technique": "Lean 4 invariant/induction proof over commit fault plans + trace correspondence with fault injection",
